@@ -40,11 +40,10 @@ def checkAlg (k : Key) (alg : JVal) : Except Err Unit :=
 def checkKeyOp (ops : List KeyOpRow) (k : Key) (operation : String) : Except Err Unit := do
   let ko := k.get "key_ops"
   if !ko.isNone then
-    if !(← pyIn (.str operation) ko) then throw .unsupportedKeyOperation
+    ensure (← pyIn (.str operation) ko) .unsupportedKeyOperation
   match ops.find? (·.name == operation) with
   | none => throw .assertionError
-  | some reg =>
-    if reg.priv == some true && !k.isPrivate then throw .unsupportedKeyOperation
+  | some reg => ensure (!(reg.priv == some true && !k.isPrivate)) .unsupportedKeyOperation
 
 end Key
 
